@@ -31,7 +31,7 @@ from ..core import Ctx
 from ..loader import AnalysisError, FunctionInfo, walk_scope
 from ..resolve import last_attr
 from ..util import calls, dominated, mini_eval, names_in, one, path_text, some
-from ._g4_helpers import bind_args, txt
+from ._g4_helpers import bind_args, txt, require_count
 
 META = {
     "text": "RF-DOM with evaluated guards on _fetch_and_resolve (digest compared before parsing; nested-pointer test before every dispatch/keep; "
@@ -491,7 +491,7 @@ def _read_sites(ctx: Ctx) -> None:
         par = cfg.parent.get(id(cs[0]))
         bound = isinstance(par, (ast.Assign, ast.Return, ast.AnnAssign))
         ctx.check(bound, "RF-TABLE", f"read-site-resolves-pointers:{fi.name}", fi, cs[0], ok="the resolved (batch, metadata) replaces the pointer", bad="the result of resolve_external_location is discarded")
-    ctx.require_count("RF-TABLE", n, 3, "read sites calling resolve_external_location")
+    require_count(ctx, "RF-TABLE", n, 3, "read sites calling resolve_external_location")
 
 
 def run(ctx: Ctx) -> None:
